@@ -377,3 +377,90 @@ def named_view(fn, table):
         if hasattr(fn, a):
             setattr(v, a, getattr(fn, a))
     return v, found
+
+
+def alpha_text(fn):
+    """source text of a function with every bound local (assignment, loop and comprehension targets, `as` names)
+    renamed L1, L2, .. in order of first binding - text comparisons on it do not depend on the names chosen"""
+    from .normalize import clone
+    f = clone(fn)
+    params = {a.arg for a in f.args.args + f.args.kwonlyargs + f.args.posonlyargs}
+    order = []
+
+    class V(ast.NodeVisitor):
+        def visit_Name(self, n):
+            if isinstance(n.ctx, (ast.Store, ast.Del)) and n.id not in params and n.id not in order:
+                order.append(n.id)
+
+        def visit_ExceptHandler(self, n):
+            if n.name and n.name not in order:
+                order.append(n.name)
+            self.generic_visit(n)
+    V().visit(f)
+    ren = {nm: 'L%d' % (i + 1) for i, nm in enumerate(order)}
+
+    class R(ast.NodeTransformer):
+        def visit_Name(self, n):
+            if n.id in ren:
+                n.id = ren[n.id]
+            return n
+
+        def visit_ExceptHandler(self, n):
+            if n.name in ren:
+                n.name = ren[n.name]
+            self.generic_visit(n)
+            return n
+    R().visit(f)
+    return ast.unparse(f)
+
+
+def _stored_paths(stmts):
+    out = set()
+    for st in stmts:
+        for n in ast.walk(st):
+            tg = []
+            if isinstance(n, ast.Assign):
+                tg = n.targets
+            elif isinstance(n, (ast.AugAssign, ast.AnnAssign)):
+                tg = [n.target]
+            elif isinstance(n, ast.Delete):
+                tg = n.targets
+            for t in tg:
+                for tt in ast.walk(t):
+                    b = tt
+                    while isinstance(b, (ast.Subscript, ast.Starred)):
+                        b = b.value
+                    p = path_of(b)
+                    if p:
+                        out.add(p)
+            if isinstance(n, ast.Call) and isinstance(n.func, ast.Attribute) and n.func.attr in ('pop', 'append', 'insert', 'remove', 'clear', 'extend'):
+                p = path_of(n.func.value)
+                if p:
+                    out.add(p)
+    return out
+
+
+def path_condition(node, fn):
+    """[(test expr, polarity)] of the If statements enclosing `node` inside `fn` (innermost last) that still hold at
+    `node`: a condition is dropped when something it reads is stored to between the test and the node"""
+    out = []
+    child = node
+    p = parent(node)
+    stored = set()
+    while p is not None and p is not fn:
+        for field in ('body', 'orelse', 'finalbody'):
+            b_ = getattr(p, field, None)
+            if isinstance(b_, list) and child in b_:
+                stored |= _stored_paths(b_[:b_.index(child)])
+        if isinstance(p, ast.If):
+            blk = p.body if child in p.body else (p.orelse if child in p.orelse else None)
+            if blk is not None:
+                fp = free_paths(p.test)
+                if not any(a == b or a.startswith(b + '.') or b.startswith(a + '.') for a in fp for b in stored):
+                    out.append((p.test, blk is p.body))
+        elif isinstance(p, (ast.For, ast.While, ast.Try, ast.With)):
+            pass
+        child = p
+        p = parent(p)
+    out.reverse()
+    return out
